@@ -23,7 +23,8 @@ Ops (request = `C02.<op>\t<arg>…`):
   disabled`).
 * `C02.replay <line;line;…>` — a whole history as emitted by
   harness/tiera_trace.go (`node …` lines, `start`, then events).  Reply
-  `ok <number of lines>` or `reject <0-based line index> <reason…>`.
+  `ok <number of lines>[ note=failed-fork-masked@<line index>]` (the note: first
+  snapshot at which a node has a failed fork but `Node.getState` ≠ failed) or `reject <0-based line index> <reason…>`.
   `snapshot` lines are compared with the model's own derived states
   (`reject i snapshot-mismatch …`).  One normalisation is applied: the tracer
   prints `mkchunks n f k` before the `W n f split complete` of the same
@@ -166,23 +167,27 @@ def header : List (Nat × Item) → List NodeInfo → Except String (List NodeIn
   | (i, _) :: _, _ => .error s!"reject {i} expected-node-or-start"
   | [], _ => .error "reject 0 no-start-line"
 
-def run : State → List (Nat × Item) → Except String State
-  | s, [] => .ok s
-  | s, (i, .ev e) :: r =>
+/-- a failed fork hidden from `Node.getState` by the `break` at an earlier unfinished fork -/
+def masked (s : State) (n : Nat) : Bool :=
+  (forkStates s n).any (· == .failed) && nodeState s n != .failed
+
+def run : State → Option Nat → List (Nat × Item) → Except String (State × Option Nat)
+  | s, note, [] => .ok (s, note)
+  | s, note, (i, .ev e) :: r =>
     match step s e with
-    | some s' => run s' r
+    | some s' => run s' note r
     | none => .error s!"reject {i} {(whyNot s e).getD "?"}"
-  | s, (i, .snapshot n c l fs) :: r =>
+  | s, note, (i, .snapshot n c l fs) :: r =>
     -- fallback while the tracer emits no `forkorder` line: at load time the
     -- fork list of the node is whatever the snapshot lists
     let s := if s.phase == .loading && fs.map (·.1) != s.forksOf n
                 && enabled s (.forkorder n (fs.map (·.1))) then apply s (.forkorder n (fs.map (·.1))) else s
     match checkSnapshot s n c l fs with
-    | none => run s r
+    | none => run s (if note.isNone && masked s n then some i else note) r
     | some why => .error s!"reject {i} snapshot-mismatch node={n} {why}"
-  | _, (i, _) :: _ => .error s!"reject {i} unexpected-header-line"
+  | _, _, (i, _) :: _ => .error s!"reject {i} unexpected-header-line"
 
-def replayLines (arg : String) : Except String (Nat × State) := do
+def replayLines (arg : String) : Except String (Nat × State × Option Nat) := do
   let lines := (arg.splitOn ";").filter (· != "")
   let rec parseAll (i : Nat) : List String → Except String (List (Nat × Item))
     | [] => .ok []
@@ -191,8 +196,12 @@ def replayLines (arg : String) : Except String (Nat × State) := do
       | none => .error s!"reject {i} unparsable-line"
   let items ← parseAll 0 lines
   let (nodes, evs) ← header items []
-  let s ← run (init nodes) (normalise evs)
-  pure (lines.length, s)
+  let (s, note) ← run (init nodes) none (normalise evs)
+  pure (lines.length, s, note)
+
+def noteStr : Option Nat → String
+  | some i => s!" note=failed-fork-masked@{i}"
+  | none => ""
 
 def handle (op : String) (args : List String) : Option String :=
   match op, args with
@@ -213,11 +222,11 @@ def handle (op : String) (args : List String) : Option String :=
     pure (nodeStateOf fs (ps.all fun p => p == .complete || p == .disabled)).name
   | "replay", [h] =>
     match replayLines h with
-    | .ok (n, _) => some s!"ok {n}"
+    | .ok (n, _, note) => some s!"ok {n}{noteStr note}"
     | .error e => some e
   | "final", [h] =>
     match replayLines h with
-    | .ok (_, s) => some s!"ok {s.launches.length} {s.resets.length} {s.inc}"
+    | .ok (_, s, _) => some s!"ok {s.launches.length} {s.resets.length} {s.inc}"
     | .error e => some e
   | _, _ => none
 
